@@ -157,6 +157,14 @@ impl Scn
         sort_rules(&mut self.rules);
         for r in &self.rules { self.names.rids.insert(rule_ticket(&r.tg, &r.src, &r.command_lines()), r.rid()); }
         self.user_tick();
+        {   /* the directories the paths of the rules live in exist (mkdir -p by the user) */
+            let mut fs = self.sys.fs.lock().unwrap();
+            for r in rules.iter() { for p in r.tg.iter().chain(r.src.iter())
+            {
+                let mut at = 0;
+                while let Some(i) = p[at..].find('/') { fs.dirs.insert(p[..at + i].to_string()); at += i + 1; }
+            } }
+        }
         self.sys.put(RULEFILE, &render(rules));
         self.sys.set_rules(&self.rules);
         self.out.push(json!({"a" : "rules", "rules" : rules_json(&self.rules)}));
